@@ -987,6 +987,10 @@ def g1_configs(quick):
                          ArgPool=["x=$v", "x=int1"] if q else ["x=$v", "x=int1", "x=$w"], VarPool=["v|Int||", "v|String||"])
     c["ops"] = dict(BASE, MaxNodes=3, MaxSecs=2, MaxAlias=1, OpHeads=["query:", "query:Q", "subscription:S", "mutation:Q"] if q else ["query:", "query:Q", "query:R", "mutation:Q", "subscription:S", "subscription:"],
                     Fields=["tick", "n"] if q else ["n", "tick", "bump", "__typename"], LeafOnly=["tick", "n", "bump", "__typename"], Conds=[] if q else ["Subscription"])
+    # several operations sharing fragments that use a variable: 5.8.3 holds per operation through transitively spread fragments
+    # (an operation that defines $v next to one that does not, a fragment reached directly and through another fragment)
+    c["opvars"] = dict(BASE, MaxNodes=4 if q else 5, MaxSecs=4, MaxArgs=1, MaxVars=2 if q else 3, OpHeads=["query:Q", "query:R"] if q else ["query:Q", "query:R", "query:S"],
+                       Fields=["fi"], LeafOnly=["fi"], Conds=["Query"], Inline=0, FragSeq=("F1", "F2"), Spreads=["F1", "F2"], ArgPool=["x=$v"], VarPool=["v|Int||"])
     return c
 
 
@@ -1195,3 +1199,75 @@ def m_argument_sets(ts, d, r):
         n2 = spread("FR")
     sibs += [n1, n2]
     return d
+
+
+# ---------------------------------------------------------------------------------------------------------
+# G4: several operations over one chain of fragments that uses a variable (5.8.3 is a per-operation rule: the variable
+# must be defined by EVERY operation that reaches the use through transitively spread fragments).  Not registered as a G2
+# mutation: the family has its own random stream, so the G1-G3 case streams stay what they were.
+OP_NAME_POOL = ["Good", "Bad", "Other", "Q", "R", "S", "T", "Main", "List", "Get", "One", "Two", "Zeta", "A1", "B2", "op", "x", "Fetch", "M0", "Last"]
+FRAG_TAGS = ["F", "Frag", "Part", "p", "Shared", "fx", "Z"]
+
+
+def shared_var_doc(ts, rng):
+    """(kind, doc, op_index): 2-6 named query operations that enter one chain of 1-4 fragments at different links (directly,
+    through an inline fragment or below `a { .. }`); the last fragment (sometimes a middle one too) uses $var as an argument.
+    kind says which operations define the variable: 'one-bad' (all but one), 'some-bad', 'all-good' (valid), 'all-bad'.
+    Validity is TLC's business; the kinds only spread the cases."""
+    q = ts["query"]
+    L = rng.choice([1, 1, 2, 2, 3, 3, 4])
+    nops = rng.choice([2, 3, 3, 4, 4, 5, 6])
+    var = rng.choice(["a", "v", "sv", "id", "x9"])
+    tag = rng.choice(FRAG_TAGS)
+    nums = rng.sample(range(1, 40), L)
+    fnames = ["%s%d" % (tag, k) for k in nums]
+    # type of every link: Query, or A from some link on (entered through `a { ...next }`)
+    first_a = rng.choice([None, None] + list(range(1, L))) if L > 1 else rng.choice([None, None, 0])
+    on = [("A" if first_a is not None and i >= first_a else q) for i in range(L)]
+
+    def use(t, alias):
+        if t == "A":
+            return field("echo", args=[{"name": "x", "val": V(var)}], alias=alias)
+        return field(rng.choice(["fi", "f2"]), args=[{"name": "x", "val": V(var)}], alias=alias)
+
+    def enter(frm, i):
+        """selections that lead from a selection set on `frm` into fragment i"""
+        sp = spread(fnames[i])
+        if frm == on[i]:
+            x = rng.random()
+            return [sp] if x < 0.6 else [inline(on[i] if x < 0.8 else "", [sp])]
+        return [field("a", [sp] if rng.random() < 0.7 else [field("self", [sp], alias="zs")], alias="za%d" % i)]
+
+    frags = []
+    for i in range(L):
+        sels = []
+        if rng.random() < 0.4:
+            sels.append(field("name" if on[i] == "A" else "n", alias="k%d" % i))
+        if i == L - 1 or rng.random() < 0.2:
+            sels.append(use(on[i], "u%d" % i))
+        if i < L - 1:
+            sels += enter(on[i], i + 1)
+        rng.shuffle(sels)
+        frags.append({"name": fnames[i], "on": on[i], "dirs": [], "sels": sels})
+    kind_ = rng.choice(["one-bad"] * 5 + ["some-bad"] * 3 + ["all-good"] * 2 + ["all-bad"])
+    defines = {"one-bad": [True] * (nops - 1) + [False], "all-good": [True] * nops, "all-bad": [False] * nops,
+               "some-bad": [True, False] + [rng.random() < 0.5 for _ in range(nops - 2)]}[kind_]
+    rng.shuffle(defines)
+    entries = [0] + [rng.randrange(L) for _ in range(nops - 1)]          # the head of the chain is always used
+    rng.shuffle(entries)
+    names = rng.sample(OP_NAME_POOL, nops)
+    ops = []
+    for j in range(nops):
+        sels = enter(q, entries[j])
+        vars_ = [vardef(var, N("Int"), I(3) if rng.random() < 0.2 else None)] if defines[j] else []
+        if rng.random() < 0.3:                                          # a variable of its own, used directly
+            vars_.append(vardef("own", N("Int")))
+            sels.append(field("fi", args=[{"name": "x", "val": V("own")}], alias="zo%d" % j))
+        if rng.random() < 0.3:
+            sels.insert(rng.randint(0, len(sels)), field("__typename"))
+        if rng.random() < 0.15 and entries[j] + 1 < L and on[entries[j] + 1] == q:   # a second way into the chain
+            sels.append(spread(fnames[entries[j] + 1]))
+        ops.append({"name": names[j], "ty": "query", "vars": vars_, "dirs": [], "sels": sels})
+    frag_defs = list(frags)
+    rng.shuffle(frag_defs)
+    return kind_, {"ops": ops, "frags": frag_defs}, rng.randrange(nops)
